@@ -252,6 +252,33 @@ class Node:
             self.escaped.append(("network_manager.step", repr(e)))
         self.pump_writes()
 
+    def run_once(self, only_chain_manager=False):
+        """One iteration of the node's real event loop (LocalPeer.run: read the clock, step the managers, handle what the selector reports
+        -- nothing here: deliveries are made by the driver), ended from inside the selector call as LocalPeer.stop() would."""
+        local = self.local
+        sel = local.selector
+        o_select, o_close, o_err = sel.select, sel.close, local.logger.error
+
+        def select(timeout=None):
+            local.running = False
+            return []
+
+        def err(msg, *a, **k):
+            self.escaped.append(("LocalPeer.run", str(msg)[:300]))
+        sel.select, sel.close, local.logger.error = select, (lambda: None), err
+        o_managers = local.managers
+        if only_chain_manager:
+            local.managers = [local.chain_manager]      # (the Net model has no peer gossip: the network manager's periodic step is left out)
+        try:
+            local.run()
+        except Exception as e:
+            self.escaped.append(("LocalPeer.run", repr(e)))
+        finally:
+            sel.select, sel.close, local.logger.error = o_select, o_close, o_err
+            local.managers = o_managers
+            local.running = True
+        self.pump_writes()
+
     def step_managers(self):
         try:
             self.local.step_managers(self.clock())
